@@ -335,4 +335,32 @@ theorem c09_new_switch_slot_holds_its_name {cfg : RichCfg} {secs : List RSection
     · simp at h
     · exact fin _ h
 
+/-- **a switch that has a number is written as that number**: with the id list the switch rebuild returned as the
+encode context, a reference to a switch carrying number `i` is written as `i` or not at all (`KeyError`) — never as
+another number, whatever names the table holds, whatever other switches the save places, with or without a stored
+switch-name section, in every iteration order.  (`huid`: object identities are not shared by switches that differ in
+their number.) -/
+theorem c09_numbered_switch_written_as_its_number {cfg : RichCfg} {secs : List RSection} {order : Option (List Nat)}
+    {tbl : List RSwitch} {ids : List (RSwitch × Nat)}
+    (h : rebuildSwnm cfg secs order = .ok (tbl, ids))
+    (ctx : EncCtx) (hctx : ctx.switchIds = ids) (s : RSwitch) (i : Nat) (hs : s.idx = some i)
+    (huid : ∀ p ∈ ids, p.1.uid = s.uid → p.1.idx = s.idx)
+    (j : Nat) (hj : switchId ctx s = some j) : j = i := by
+  unfold switchId at hj
+  rw [hctx] at hj
+  cases hf : ids.find? (fun p => RSwitch.same p.1 s) with
+  | none => simp [hf] at hj
+  | some p =>
+    simp only [hf, Option.map_some, Option.some.injEq] at hj
+    have hp : p ∈ ids := List.mem_of_find?_eq_some hf
+    have hsame : RSwitch.same p.1 s = true := by simpa using List.find?_some hf
+    have hpi : p.1.idx = some i := by
+      unfold RSwitch.same at hsame
+      split at hsame
+      · rw [huid p hp (by simpa using hsame), hs]
+      · simp only [Bool.and_eq_true, beq_iff_eq] at hsame
+        rw [hsame.2, hs]
+    rw [← hj]
+    exact (c09_new_switch_numbers_fresh h).2.1 p hp i hpi
+
 end Richchk.Props.C09
